@@ -295,8 +295,9 @@ class Interp(Arith):
         return pc
 
     def st_Return(self, st, fr, pc):
+        n0 = len(self.raises)
         v = self.ev(st.value, fr, pc) if st.value is not None else None
-        fr.rets.append((pc, v))
+        fr.rets.append((self._after_raises(pc, n0), v))        # the value is returned only on the paths that did not raise
         return FALSE
 
     def st_Assign(self, st, fr, pc):
@@ -338,9 +339,17 @@ class Interp(Arith):
     def st_Global(self, st, fr, pc):
         raise Unsupported("global statement")
 
+    def _after_raises(self, pc, n0):
+        """path condition after an expression was evaluated: the paths on which it raised have ended"""
+        new = self.raises[n0:]
+        if not new:
+            return pc
+        return z3.simplify(z3.And(pc, z3.Not(z3.Or(*[c for c, _ in new]))))
+
     def st_If(self, st, fr, pc):
+        n0 = len(self.raises)
         c = self.to_bool(self.ev(st.test, fr, pc))
-        # a raise inside the test ends those paths
+        pc = self._after_raises(pc, n0)          # a raise inside the test ends those paths
         pb = self.pybool(c)
         if pb is True:
             return self.exec_block(st.body, fr, pc)
@@ -429,7 +438,9 @@ class Interp(Arith):
 
     def st_With(self, st, fr, pc):
         for item in st.items:
+            n0 = len(self.raises)
             v = self.ev(item.context_expr, fr, pc)
+            pc = self._after_raises(pc, n0)
             if item.optional_vars is not None:
                 self.assign(item.optional_vars, v, fr, pc)
             self.on_with_enter(v, fr, pc)
@@ -510,7 +521,9 @@ class Interp(Arith):
         return z3.simplify(z3.Or(pc_main, *[c for c, _ in snaps]))
 
     def st_For(self, st, fr, pc):
+        n0 = len(self.raises)
         items = self.iterate(self.ev(st.iter, fr, pc), pc)
+        pc = self._after_raises(pc, n0)
         saved = (fr.brk, fr.cont)
         all_brk = []
         for cond, item in items:
@@ -545,7 +558,9 @@ class Interp(Arith):
         for _ in range(self.unroll):
             if self.pybool(pc) is False:
                 break
+            n0 = len(self.raises)
             c = self.to_bool(self.ev(st.test, fr, pc))
+            pc = self._after_raises(pc, n0)
             cb = self.pybool(c)
             if cb is False:
                 exits.append((pc, dict(fr.env)))
